@@ -79,9 +79,9 @@ def nf_pair(rec, cfg):
     nl, nv = len(a["f"]), len(b["f"])
     if nl >= 3:
         rec.mark_nontrivial(desc)
+    key = refmodel.nf_regime(cfg, nv, nl, a)
     rec.ratio("nf_vec_vs_ltf_rel_diff/0.1", abs(nv - nl) / (0.1 * nl)
-              if refmodel.nf_regime(cfg, nv, nl) in (None, "vec-nf-differs") else 0.0)
-    key = refmodel.nf_regime(cfg, nv, nl)
+              if key in (None, "vec-nf-differs") else 0.0)
     if key is not None:
         rec.violation(key, f"vectorized_ltf has {nv} bins, ltf has {nl} (differs by "
                            f"{abs(nv - nl) / nl:.1%} > 10%); Jdes={cfg['Jdes']}, N={cfg['N']}")
